@@ -212,6 +212,12 @@ def run_case(cls, params, rec):
 		st, y = gen.call(predict, model, Xf, args=tuple(args) if k else None,
 			batch_size=b, device="cpu")
 		if st == "raise":
+			if bkind != "int":
+				# only Python ints are documented batch sizes: refusing
+				# another kind of object is in order, mis-using it is not
+				rec.refusal(cls, params, "batch_size given as %s refused" %
+					bkind)
+				return
 			rec.violation(cls, params, {"what": "predict raised",
 				"error": repr(y)[:300]}, mech="C03/raised")
 			return
@@ -271,9 +277,9 @@ def run_case(cls, params, rec):
 			rec.refusal(cls, params, "out-of-memory error propagated")
 			rec.count("oom_propagated")
 			return
-		if params.get("bkind") in ("np0d", "t0d"):
-			# 0-d arrays / tensors are not documented kinds of batch size:
-			# refusing them is in order, mis-using them is not
+		if params.get("bkind") != "int":
+			# only Python ints are documented batch sizes: refusing another
+			# kind of object is in order, mis-using it is not
 			rec.refusal(cls, params, "batch_size given as %s refused" %
 				params["bkind"])
 			return
